@@ -1,4 +1,5 @@
 import collections
+import os
 import struct
 import sys
 
@@ -13,6 +14,10 @@ from .types import Instruction, Label, Assignment, InstructionPointer, WordList,
 from . import reports
 
 
+# Verification hook (off unless PDPY11_VERIF=1): record what every statement was given and produced
+_VERIF = os.environ.get("PDPY11_VERIF") == "1"
+
+
 class Compiler:
     def __init__(self, output_charset="bk"):
         self.symbols = CaseInsensitiveDict()
@@ -23,6 +28,8 @@ class Compiler:
         self.next_internal_symbol_prefix = 1
         self.times_file_compiled = collections.defaultdict(int)
         self.internal_prefix_to_state = {}
+        if _VERIF:
+            self.verif_trace = []
 
 
     def compile_file(self, file, start, link_base):
@@ -53,6 +60,8 @@ class Compiler:
                 state = {**state, "insn": insn, "emit_address": addr, "local_symbol_prefix": local_symbol_prefix}
                 if isinstance(insn, Instruction):
                     chunk = self.compile_insn(insn, state)
+                    if _VERIF:
+                        self.verif_trace.append(("insn", state, insn, addr, chunk))
                     if chunk is not None:
                         data += chunk
                         if isinstance(chunk, BaseDeferred):
@@ -62,6 +71,8 @@ class Compiler:
 
                 elif isinstance(insn, WordList):
                     chunk = self.compile_word_list(insn, insn.words, state)
+                    if _VERIF:
+                        self.verif_trace.append(("words", state, insn, addr, chunk))
                     data += chunk
                     if isinstance(chunk, BaseDeferred):
                         addr += chunk.length()
@@ -79,6 +90,8 @@ class Compiler:
                         _ = 1  # for code coverage
                         continue
 
+                    if _VERIF:
+                        self.verif_trace.append(("label", state, insn, addr, None))
                     self.compile_label(insn, addr, state)
                     if not insn.local:
                         local_symbol_prefix = f".local{self.next_local_symbol_prefix}."
@@ -103,6 +116,8 @@ class Compiler:
                                     return b"\x00" * length
 
                                 chunk = Deferred[bytes](fn)
+                                if _VERIF:
+                                    self.verif_trace.append(("skip", state, insn, addr, chunk))
                                 data += chunk
                                 if isinstance(chunk, BaseDeferred):
                                     addr += chunk.length()
